@@ -348,6 +348,12 @@ from ..selftest import Variant  # noqa: E402
 
 VARIANTS = [
     Variant(
+        "no-grammar-segment-keeps-child-validity", FIX,
+        "        else:\n            # There's nothing to validate against here (e.g. a BracketedSegment),\n            # so hand the validation request on to the parent segment.\n            validated = False\n",
+        "",
+        "R13b", "(iii) returned validity", "the original defect: validity left over from the last child",
+    ),
+    Variant(
         "adopt-before-validity-test", LINTER,
         "                            elif not _valid:\n",
         "                            elif False:\n",
